@@ -177,7 +177,10 @@ SocDataHermitian(soc) ==
 SocSlots(nw) == {sl \in [st : {"00", "11", "01"}, R : {Z3, <<1, 0, 0>>}, m : 1..nw, n : 1..nw, c : 1..3] : TRUE}
 SocTerms(nw) == {[st |-> sl.st, R |-> sl.R, m |-> sl.m, n |-> sl.n, c |-> sl.c, t |-> t] : sl \in SocSlots(nw), t \in {<<1, 0>>, <<0, 1>>}}
 SelfConj(tm) == tm.st # "01" /\ tm.R = Z3 /\ tm.m = tm.n
-SocTermSets(nw, maxsoc) == {T \in UNION {kSubset(j, SocTerms(nw)) : j \in 0..maxsoc} :
+(* all subsets with at most n elements (kSubset of the community modules refuses base sets with more than 62 elements) *)
+RECURSIVE SubsetsUpTo(_, _)
+SubsetsUpTo(S, n) == IF n = 0 THEN {{}} ELSE LET P == SubsetsUpTo(S, n - 1) IN P \cup {p \cup {x} : p \in P, x \in S}
+SocTermSets(nw, maxsoc) == {T \in SubsetsUpTo(SocTerms(nw), maxsoc) :
                        /\ \A tm \in T : SelfConj(tm) => GIsReal(tm.t)
                        /\ \A t1, t2 \in T : (t1.st = t2.st /\ t1.R = t2.R /\ t1.m = t2.m /\ t1.n = t2.n /\ t1.c = t2.c) => t1 = t2}
 SocFromTerms(nw, T) ==
